@@ -16,10 +16,11 @@ _NAMES = ("__init__", "serve_forever", "shutdown", "server_close", "server_bind"
 class _Request:
     """what StreamRequestHandler needs from an accepted socket"""
 
-    def __init__(self, line):
+    def __init__(self, line, client="present"):
         self.inp = bytes(line) + b"\n"
         self.out = b""
         self.closed = False
+        self.client = client      # "present" | "reset" (RST by the time of the reply) | "closed"
 
     def makefile(self, mode="r", buffering=-1, **k):
         if "r" in mode:
@@ -27,6 +28,10 @@ class _Request:
         return _Writer(self)
 
     def sendall(self, data):
+        if self.client == "reset":
+            raise ConnectionResetError(104, "Connection reset by peer")
+        if self.client == "closed":
+            raise BrokenPipeError(32, "Broken pipe")
         self.out += bytes(data)
 
     send = sendall
@@ -58,7 +63,7 @@ class _Writer(io.RawIOBase):
         return True
 
     def write(self, b):
-        self.req.out += bytes(b)
+        self.req.sendall(b)
         return len(b)
 
 
@@ -112,11 +117,11 @@ class ServerRecorder:
         self.saved = None
 
 
-def serve_line(server, line):
+def serve_line(server, line, client="present"):
     """one client, one request line, through the server's own handler class; returns a
     harness.Outcome-like object: .reply (parsed JSON or None), .raw, .exc (set when the handler asked
     the server to shut down or let an exception escape)"""
-    req = _Request(line)
+    req = _Request(line, client)
     before = set(threading.enumerate())
     err = None
     try:
